@@ -221,4 +221,22 @@ theorem checkUnsolicitedBuffers_generated (D : Desc) (s : St) :
        obtain ⟨ic, it⟩ := item
        by_cases h : s.rhead + 1 ≥ D.cap <;> cases it <;> simp [h, Gen.CAT_STATUS_OK])
 
+/-! ### T14 -/
+
+theorem readCmdChar_generated : readCmdChar = Gen.read_cmd_char := by
+  funext s i
+  unfold readCmdChar Gen.read_cmd_char
+  cases i.rd with
+  | none => rfl
+  | some b =>
+    simp only [St.emit]
+    by_cases h : s.state = .parseCommandArgs <;> simp [h]
+
+theorem holdExit_generated : holdExit = Gen.hold_exit := by
+  funext s st; unfold holdExit Gen.hold_exit; rfl
+
+theorem startPrintCmdList_generated (D : Desc) (s : St) : startPrintCmdList D s = Gen.start_print_cmd_list D s := by
+  unfold startPrintCmdList Gen.start_print_cmd_list
+  by_cases h : D.commandsNum = 0 <;> simp [h]
+
 end Cat
